@@ -11,6 +11,8 @@ FUNCTIONS = ["btc_hd_wallet.bip39.mnemonic_from_entropy_bits", "btc_hd_wallet.bi
              "btc_hd_wallet.base_wallet.BaseWallet.from_entropy_bits", "btc_hd_wallet.helper.int_to_big_endian"]
 BOUNDS = {"lengths": "all five mnemonic lengths; entry points mnemonic_from_entropy_bits, new_wallet and from_entropy_bits on both networks",
           "histories": "two consecutive calls in one process; all values of the OS byte stream and of the Mersenne-Twister stream (symbolic)"}
+BOUNDS_ADDED = 'the first k = 1..2 wallet constructions report an invalid master key (injected): whatever is handed out afterwards still has OS entropy'
+BOUNDS["histories, lifetimes, injected faults, boundary vectors"] = BOUNDS_ADDED
 STUBS = ["os.urandom(n) -> n fresh symbolic bytes per call (request sizes recorded)",
          "random.SystemRandom.getrandbits/randbytes and secrets.randbits/token_bytes -> CPython's definition over os.urandom",
          "the seedable generator (random.getrandbits/randbytes/randrange/..., random.Random instances) -> an independent symbolic stream",
